@@ -61,7 +61,19 @@ def set_variant(v):
     VARIANT = v
 
 
-def make_spec(p):
+def make_spec(p, ia=False):
+    spec = _make_spec(p)
+    if ia:
+        # k1 is defined by an initial assignment that resolves to the same number (x starts at 1.0): a later
+        # update_parameters replaces the assignment by a number, the earlier segments were run with the assignment
+        for d in spec["decl"]:
+            if d["kind"] == "parameter" and d["name"] == "k1":
+                d.pop("value")
+                d["ia"] = {"args": ["x"], "expr": ["mul", V(p["k1"]), N("x")]}
+    return spec
+
+
+def _make_spec(p):
     if VARIANT == "lean":
         return {
             "decl": [
@@ -349,7 +361,7 @@ def check_live(case):
     from mc.spec import build
 
     set_variant(case["variant"])
-    sim = Simulator(build(make_spec(SEG_PARAMS[0])))
+    sim = Simulator(build(make_spec(SEG_PARAMS[0], ia=bool(case.get("ia")))))
     t = 0.0
     txt = f"{case}"
     for seg, vname in enumerate(case["views"], start=1):
@@ -461,6 +473,8 @@ def run(ctx):
     import itertools as _it
 
     live = [{"family": "live", "variant": v, "views": list(vs)} for v in VARIANTS for vs in _it.product(LIVE_VIEWS, repeat=3)]
+    # the same with a parameter that starts out defined by an initial assignment and is given numbers later
+    live += [{"family": "live", "variant": v, "views": list(vs), "ia": True} for v in VARIANTS for vs in _it.product(LIVE_VIEWS, repeat=3)]
     ctx.evaluate(live, timeout=120)
     ctx.note(f"{len(live)} live simulators: a view read after each of 3 segments")
     ctx.coverage_extra.update({"states": len(seen), "live_simulators": len(live), "transitions": transitions, "traces_validated_against_impl": transitions,
